@@ -248,8 +248,18 @@ def run(task):
                 for o1, o2 in itertools.product(["", "=", "#"], repeat=2):
                     if o1 == o2 == "":
                         continue
-                    smi = E2.write(n, par, rings, at, bt, ring_tok={rings[0]: (o1, ""), rings[1]: (o2, "")}, digit_perm=dp)
-                    last = (smi, check(smi, RELAXED, r))
+                    for sc in ("fresh", "two"):        # one-digit and %nn labels
+                        smi = E2.write(n, par, rings, at, bt, ring_tok={rings[0]: (o1, ""), rings[1]: (o2, "")}, digit_perm=dp, scheme=sc)
+                        last = (smi, check(smi, RELAXED, r))
+        if pi == 0:
+            # the writer numbers ring bonds 1, 2, 3, ...: a multiple ring bond behind k earlier rings gets a one- or two-digit label
+            for k in range(0, 13):
+                for o in ("=", "#", "/"):
+                    for tail in ("C%s1CCCCC%s1" % (o, o), "C%s1CCCCC1" % o, "C1CCCCC%s1" % o):
+                        smi = "C1CC1." * k + tail
+                        last = (smi, check(smi, RELAXED, r))
+                        smi = "C1CC1" * k + tail
+                        last = (smi, check(smi, RELAXED, r))
     elif kind == "ba":
         _, n, pi, first = arg
         par = list(E2.parent_vectors(n))[pi]
